@@ -1,6 +1,7 @@
 import PbBss.Props.C17Ideal
 import PbBss.Proofs.PipelineLeaky
 import PbBss.Proofs.PipelineLeakyEm
+import PbBss.Proofs.PipelineChain
 /-! # C17 — the documented pipeline separates a separable scene
 
 `PbBss/Props/C17Ideal.lean` (same namespace `PbBss.C17`) holds the index contract of the chain and the IDEAL-mask scene.
@@ -17,6 +18,11 @@ fixed-point theorems of C03 make them exactly TWO-LEVEL (`g` on the true class o
   reaches 30 dB under the same premises, the interferer powers weighted by `ν_min = min_j g/max(mass_j, floor)`.
 * `em_posterior_psd`: one statement across the EM model and the pipeline model — the masks are literally
   `eStep (fit … n (hardStart c))` of the cACG mixture (any `n ≥ 1`), the PSDs are those of `psd`.
+
+* `balanced_pipeline_chain`: ONE theorem across the three stage models (EM → alignment → PSD) — `pipelinePsd` (the composite
+  of the documented chain) applied to the EM posteriors of F bins, relabelled per bin by an arbitrary permutation field,
+  aligned by the greedy aligner and a global permutation: in every bin the `k`-th PSD is the two-level PSD of one true source
+  `σ k` (the same in every bin), for every number of EM iterations.
 
 Still partial (search-only clauses): the beamformer uses the TRUE steering vector (the leaky target PSD is not rank-one, so
 the ATF / rank-one estimates from leaky masks are not covered), white noise enters at expectation level, masks are exactly
@@ -121,5 +127,39 @@ theorem em_posterior_psd (eigh : Tab (D+1) (Tab (D+1) ℂ) → Tab (D+1) (Tab (D
   PipelineProof.em_posterior_psd eigh tiny floor rule tie eps s sc heigh htiny h10 ht hf0 hf1 htie S hS hbal n hn pfloor k d e
 
 end em
+
+section chain
+variable {K N D F : Nat} {a : Fin (K+1) → Fin (D+1) → ℂ} {c : Fin N → Fin (K+1)} {z : Fin N → Fin (D+1) → ℂ}
+
+/-- **the documented chain on the balanced scene, across the three stage models**: F frequency bins carry the balanced
+noise-free scene; the cACG mixture is fitted for ANY `n ≥ 1` iterations (`Em.fit`); whatever class order each bin's model
+has (`π` arbitrary — the permutation problem), the greedy aligner's mapping (alignment model) and any global permutation `g`
+are applied and the masks go into `get_power_spectral_density_matrix` (`pipelinePsd` = the composite of the chain, with its
+own floor kept as `max`).  Then in every bin the `k`-th PSD is the two-level PSD of ONE true source `σ k = π₀(g k)`, and the
+noise PSD of target `k` is the two-level noise PSD of that source — the objects `two_level_pipeline_sir_partial` is about. -/
+theorem balanced_pipeline_chain
+    (eigh : Tab (D+1) (Tab (D+1) ℂ) → Tab (D+1) (Tab (D+1) ℂ) × Tab (D+1) ℝ)
+    (tiny floor : ℝ) (rule : WeightRule) (tie : Tying N) (eps : ℝ) (s : Fin N → ℝ)
+    (sc : Scene a c z) (heigh : EighOn eigh tiny z) (htiny : 0 < tiny)
+    (h10 : ((10 : ℕ) : ℝ) * tiny ≤ 1) (ht : tiny ≤ 1 / ((K+1 : ℕ) : ℝ)) (hf0 : 0 < floor) (hf1 : floor < 1)
+    (htie : tie.uniform = true) (S : ℝ) (hS : tiny ≤ S) (hbal : ∀ k, classMass c s k = S) (n : Nat) (hn : 1 ≤ n)
+    (hE : 10 * (N : ℝ) ≤ ratioE D floor) (atiny : ℝ) (hat : atiny ≤ cacgG K D floor)
+    (π : Fin F → Equiv.Perm (Fin (K+1))) (g : Equiv.Perm (Fin (K+1))) (pfloor : ℝ)
+    (f : Fin F) (k : Fin (K+1)) (d e : Fin (D+1)) :
+    let base := Align.emMask F eigh tiny floor rule tie eps s c z n
+    let post : Fin F → Fin (K+1) → Fin N → ℝ := toFKT (Align.at3 (Align.permuted base π))
+    let m : Fin (K+1) → Fin F → Fin (K+1) := Align.greedyAligner atiny .cos (Align.permuted base π)
+    let obs : Fin F → Fin (D+1) → Fin N → ℂ := fun _ d t => z t d
+    let σ : Fin (K+1) → Fin (K+1) := fun k => Align.permAtBin π 0 (g k)
+    pipelinePsd pfloor obs post m g f k d e =
+        ∑ j, ((muW pfloor (cacgG K D floor) (cacgH K D floor) c (σ k) j * frames c j : ℝ) : ℂ)
+          * (a j d * (starRingEnd ℂ) (a j e)) ∧
+      noiseFromPsd (pipelinePsd pfloor obs post m g) f k d e =
+        ∑ j, ((nuW pfloor (cacgG K D floor) (cacgH K D floor) c (σ k) j * frames c j : ℝ) : ℂ)
+          * (a j d * (starRingEnd ℂ) (a j e)) :=
+  PipelineChain.balanced_pipeline_chain eigh tiny floor rule tie eps s sc heigh htiny h10 ht hf0 hf1 htie S hS hbal n hn hE
+    atiny hat π g pfloor f k d e
+
+end chain
 
 end PbBss.C17
